@@ -1018,7 +1018,7 @@ pub fn run_witness(args: &[String]) -> i32 {
         }
     }
     // same-named subprograms sharing lines
-    let names7 = ["area", "scale", "seed_of", "fresh", "apply", "first_user", "second_user"].map(String::from).to_vec();
+    let names7 = ["area", "scale", "seed_of", "fresh", "apply", "first_user", "second_user", "sub_one"].map(String::from).to_vec();
     for (label, tc, extra) in [("w7/default", None, vec![]), ("w7/opt1", None, vec!["-C", "opt-level=1"])] {
         if quick && label != "w7/default" {
             continue;
